@@ -329,8 +329,8 @@ Qed.
 Lemma read_chunk_length_holds d p t e : length t = 4%nat -> gp e ->
   holds d (addr p) t -> holds d (addr p + 4) (dp_enc fa e) -> read_chunk_length fa d p = Ok (t, e).
 Proof.
-  intros L G Ht He. unfold read_chunk_length, rd. change (Z.to_nat HDR) with (length (t ++ dp_enc fa e)).
-  2:{ rewrite app_length, L, dp_enc_len by auto. reflexivity. }
+  intros L G Ht He. unfold read_chunk_length, rd.
+  replace (Z.to_nat HDR) with (length (t ++ dp_enc fa e)) by (rewrite app_length, L, dp_enc_len by auto; reflexivity).
   rewrite holds_known.
   - replace (skipn 4 (t ++ dp_enc fa e)) with (dp_enc fa e) by (rewrite <- L, skipn_app_len; auto).
     rewrite gp_dp_rt by auto. cbn [bind]. rewrite <- L, firstn_app_len; auto.
@@ -353,7 +353,7 @@ Lemma chunk_at_same_out d d' c lo hi :
   chunk_at d c -> same_out d d' lo hi -> cend c + 4 <= lo \/ hi <= cstart c -> chunk_at d' c.
 Proof.
   intros (G1 & G2 & S & T1 & P & T2) SO Hd. rewrite csize_addr in S. unfold HDR in S.
-  repeat split; auto; try (rewrite csize_addr; unfold HDR; lia).
+  split; [exact G1|]. split; [exact G2|]. split; [rewrite csize_addr; unfold HDR; lia|]. split; [|split].
   - eapply holds_same_out; eauto. unfold lenZ; simpl. lia.
   - eapply holds_same_out; eauto. unfold lenZ. rewrite dp_enc_len by auto. simpl. lia.
   - eapply holds_same_out; eauto. unfold lenZ; simpl. lia.
